@@ -288,6 +288,14 @@ func c18Exec(t testing.TB, w *vx.W, cs c18Case) {
 	h := c17cliNew(t, strings.HasPrefix(cs.Cfg, "strict"))
 	defer h.finish()
 	m := &c18Mon{w: w, h: h, cm: map[int]*c18ConnMon{}, rm: map[int]*c18ReqMon{}, feat: map[string]bool{}}
+	applied, points, complete := 0, 0, false
+	defer func() {
+		w.Ctx().AddTransitions(int64(applied))
+		w.Ctx().AddStates(int64(points))
+		if complete {
+			w.Ctx().AddTraces(1)
+		}
+	}()
 	lim := uint32(0)
 	if strings.HasSuffix(cs.Cfg, "lim1") {
 		lim = 1
@@ -376,6 +384,8 @@ func c18Exec(t testing.TB, w *vx.W, cs c18Case) {
 		}
 		m.settle(lim)
 		m.quiescent(false)
+		applied++
+		points++
 		if w.Failed() {
 			return
 		}
@@ -405,9 +415,11 @@ func c18Exec(t testing.TB, w *vx.W, cs c18Case) {
 	if os.Getenv("VERIF_H2CTL_DEBUG") != "" {
 		w.Ctx().T.Logf("C18 %v:%s", cs, h.history())
 	}
+	points++
 	if w.Failed() {
 		return
 	}
+	complete = true
 	w.Nontrivial()
 	var feats []string
 	feats = append(feats, fmt.Sprintf("conns=%d", len(h.connList())))
